@@ -168,6 +168,72 @@ func rootsFor(prop, tier string) []Root {
 			add("VH_C16_IntVarRand", 0, cs)
 			add("VH_C16_IntVarRand", 1, cs)
 		}
+	case "C18":
+		kmax := 3
+		if thorough {
+			kmax = 5
+		}
+		for k := 0; k <= kmax; k++ {
+			add("VH_C18_Add", k, 0)
+			add("VH_C18_Add", k, 1)
+			add("VH_C18_ContainsGTID", k)
+		}
+		k2 := 2
+		if thorough {
+			k2 = 3
+		}
+		for a := 0; a <= k2; a++ {
+			for b := 0; b <= k2; b++ {
+				for ex := 0; ex < 3; ex++ {
+					add("VH_C18_Contains", a, b, ex)
+				}
+				for ex := 0; ex < 4; ex++ {
+					add("VH_C18_Equal", a, b, ex)
+				}
+			}
+		}
+		add("VH_C18_AddSeq", 2)
+		add("VH_C18_AddSeq", 3)
+		if thorough {
+			add("VH_C18_AddSeq", 4)
+			add("VH_C18_AddSeq", 5)
+		}
+	case "C19":
+		for via := 0; via < 3; via++ {
+			add("VH_C19_Mysql56RT", via)
+		}
+		for w := 0; w < 3; w++ {
+			add("VH_C19_MariaRT", w, 0)
+			add("VH_C19_MariaRT", w, 1)
+		}
+		nmax := 2
+		if thorough {
+			nmax = 3
+		}
+		for a := 0; a <= nmax; a++ {
+			for b := 0; b <= nmax; b++ {
+				if a+b == 0 {
+					continue
+				}
+				if !thorough && a+b > 3 {
+					continue
+				}
+				add("VH_C19_SetText", a, b, 0)
+				add("VH_C19_SIDBlock", a, b)
+			}
+		}
+		add("VH_C19_SetText", 1, 1, 1)
+		add("VH_C19_SIDBlock", 0, 0)
+		for k := 0; k < 3; k++ {
+			add("VH_C19_Events", k)
+		}
+		for n := 0; n <= 3; n++ {
+			if n >= 1 && n <= 2 {
+				add("VH_C19_MariaSetText", n)
+			}
+			add("VH_C19_MariaAdd", n)
+			add("VH_C19_MariaContains", n)
+		}
 	case "C17":
 		hi := 64
 		if thorough {
